@@ -300,6 +300,30 @@ def handle (j : Json) : Json :=
     let Q := pcaTransformComps V P
     Json.mkObj [("status", "ok"), ("transform", toJson (matToBits Z)), ("inverse", toJson (matToBits (pcaInverseData V Z))),
       ("tcomps", toJson (matToBits Q)), ("icomps", toJson (matToBits (pcaInverseComps V Q)))]
+  | "boot" =>
+    -- one bootstrap member: model input D (n×p), drawn indices, oracle SVD of the centred resample, the model's scores (n×k)
+    let n := getNat j "n"; let p := getNat j "p"; let r := getNat j "r"; let k := getNat j "k"
+    if h : k ≤ r then
+      if hn : 0 < n then
+        let D := matOfBits n p (getStrArr j "D")
+        let idxA := getNatArr j "idx"
+        let idx : Fin n → Fin n := fun i => ⟨(idxA[i.val]!) % n, Nat.mod_lt _ hn⟩
+        let U := matOfBits n r (getStrArr j "U"); let V := matOfBits p r (getStrArr j "V")
+        let sA := (getStrArr j "s").map bitsToFloat
+        let s : Fin r → Float := fun i => sA[i.val]!
+        let Ms := matOfBits n k (getStrArr j "model_scores")
+        let sd : Fin k → Float := fun jj => let mm := colMaxMin (V.firstCols k h) jj; Gen.signRuleXarrayF mm.1 mm.2
+        -- alignment: sign of the (uncentred) product moment of member scores and model scores
+        let M0 : BootMember n p k Float Float := bootMember h D idx U s V sd (fun _ => 1.0)
+        let sa : Fin k → Float := fun jj =>
+          let c := (List.finRange n).foldl (fun acc i => acc + M0.scores.get i jj * Ms.get i jj) 0.0
+          if c > 0.0 then 1.0 else if c < 0.0 then -1.0 else 0.0
+        let M : BootMember n p k Float Float := bootMember h D idx U s V sd sa
+        let Rc : Mat n p Float := bootDecomposed (ρ := Float) D idx
+        Json.mkObj [("status", "ok"), ("decomposed", toJson (matToBits Rc)), ("comps", toJson (matToBits M.comps)),
+          ("scores", toJson (matToBits M.scores)), ("expvar", toJson (vecToBits M.expvar)), ("total", floatToBits M.total)]
+      else Json.mkObj [("status", "ValueError")]
+    else Json.mkObj [("status", "ValueError")]
   | "scaler" =>
     let f : ScalerFlags := ⟨getBool j "with_center", getBool j "with_std", getBool j "with_coslat"⟩
     let P : ScalerParams Float := ⟨bitsToFloat (getStr j "mean"), bitsToFloat (getStr j "std"), bitsToFloat (getStr j "coslat"), bitsToFloat (getStr j "weights")⟩
